@@ -145,7 +145,7 @@ func (ex *exampleValidator) validateExampleValueValidAgainstSchema() *Result {
 	if s.spec.Spec().Definitions != nil { // Safeguard
 		// reset explored schemas to get depth-first recursive-proof exploration
 		ex.resetVisited()
-		for nm, sch := range s.spec.Spec().Definitions {
+		for nm, sch := range s.definitionsToWalk() {
 			res.Merge(ex.validateExampleValueSchemaAgainstSchema("definitions."+nm, "body", &sch)) //#nosec
 		}
 	}
